@@ -272,10 +272,39 @@ def batch_consumers(ctx):
         return pt.make_csr_matrix((4, 4), mk("ev", (da,)), pt.make_placeholder("ec", (db,), np.int64),
                                   pt.make_placeholder("rs", (5,), np.int64))
 
+    def c_einsum_diag(da, db):
+        return pt.einsum("ii->i", mk("x", (da, db)))
+
+    def c_einsum_diag_later_operand(da, db):
+        return pt.einsum("k,jii->kij", mk("z", (2,)), mk("x", (3, da, db)))
+
+    def c_where3(da, db):      # three operands, the first with a unit axis
+        return pt.where(pt.greater(mk("c", (1, 3)), 0), mk("x", (da, 3)), mk("y", (db, 3)))
+
+    def c_where3_scalar_first(da, db):
+        return pt.where(pt.greater(mk("c", ()), 0), mk("x", (da,)), mk("y", (db,)))
+
+    def c_advidx3(da, db):
+        i8 = np.int64
+        return mk("A", (5, 5, 5))[pt.make_placeholder("i1", (1,), i8), pt.make_placeholder("i2", (da,), i8),
+                                  pt.make_placeholder("i3", (db,), i8)]
+
+    def c_bcast_utility3(da, db):
+        from pytato.utils import get_shape_after_broadcasting
+        return get_shape_after_broadcasting([mk("c", (1,)), mk("x", (da,)), mk("y", (db,))])
+
+    def c_bcast_utility4(da, db):
+        from pytato.utils import get_shape_after_broadcasting
+        return get_shape_after_broadcasting([mk("c", (3,)), 2.0, mk("x", (da, 1)), mk("w", (1, 1)), mk("y", (db, 3))])
+
     # name -> (constructor, NumPy-broadcasting admitted, which operand may be 1)
     consumers = {"add": (c_add, "both"), "where": (c_where, "both"), "stack": (c_stack, None),
                  "einsum": (c_einsum, "both"), "einsum-3": (c_matmul, "both"), "broadcast_to": (c_broadcast_to, "first"),
-                 "call": (c_call, None), "csr": (c_csr, None)}
+                 "call": (c_call, None), "csr": (c_csr, None),
+                 "einsum-diagonal": (c_einsum_diag, "both"), "einsum-diagonal-later-operand": (c_einsum_diag_later_operand, "both"),
+                 "where-3-unit-first": (c_where3, "both"), "where-3-scalar-first": (c_where3_scalar_first, "both"),
+                 "advanced-index-3": (c_advidx3, "both"), "broadcast-utility-3": (c_bcast_utility3, "both"),
+                 "broadcast-utility-5": (c_bcast_utility4, "both")}
     cases = dis = 0
     stats = {k: {"accepted": 0, "rejected": 0} for k in consumers}
     for a, b, fa, fb in pairs:
@@ -290,17 +319,22 @@ def batch_consumers(ctx):
             try:
                 r = ctor(da, db)
                 got, err = True, None
-            except (ValueError, TypeError) as e:
+            except (ValueError, TypeError, IndexError) as e:     # IndexError: NumPy's class for index arrays
                 got, err = False, f"{type(e).__name__}: {str(e)[:100]}"
             except Exception as e:   # noqa: BLE001
                 got, err = None, f"{type(e).__name__}: {str(e)[:100]}"
+            if got and not isinstance(r, tuple):
+                try:
+                    r.shape
+                except Exception as e:   # noqa: BLE001  (accepted by the constructor, but the node has no shape)
+                    got, err = None, f"accepted, then .shape raises {type(e).__name__}: {str(e)[:80]}"
             stats[cname]["accepted" if got else "rejected"] += 1
             if got != expect:
                 dis += 1
                 desc = {"consumer": cname, "a": a, "b": b, "forms": (fa, fb), "exprs": (str(da), str(db))}
                 ctx.violation(f"shape-decision-in-consumer:{cname}:{'rejects-equal' if expect else 'accepts-unequal'}",
                               f"{cname} on operand lengths {a} (form {fa}) / {b} (form {fb}) "
-                              f"{'accepted' if got else 'rejected (' + str(err) + ')'} although the lengths are "
+                              f"{'accepted' if got else ('rejected (' if got is False else 'neither accepted nor rejected (') + str(err) + ')'} although the lengths are "
                               f"{'equal' if eq else 'not equal'} for all valuations (values on the grid {vals[:4]})",
                               dict(desc, accepted=got, error=err, equal=eq))
     ctx.note_batch("shape-decision-consumers", cases, dis, exhaustive=False, per_consumer=stats)
